@@ -194,8 +194,17 @@ func (d *dropLog) Write(p []byte) (int, error) {
 	if l := bytes.ToLower(p); bytes.Contains(l, []byte("drop")) && bytes.Contains(l, []byte("frame")) {
 		d.drops++
 	}
+	d.tail = append(d.tail, strings.TrimSpace(string(p)))
+	if len(d.tail) > 40 {
+		d.tail = d.tail[len(d.tail)-40:]
+	}
 	d.mu.Unlock()
 	return len(p), nil
+}
+func (d *dropLog) lastLines() string {
+	d.mu.Lock()
+	defer d.mu.Unlock()
+	return strings.Join(d.tail, " | ")
 }
 func (d *dropLog) take() int { d.mu.Lock(); n := d.drops; d.drops = 0; d.mu.Unlock(); return n }
 
@@ -436,6 +445,13 @@ func runC13(ctx *Ctx) error {
 			}
 			f.Site = site
 			f.Case = sc.describe()
+			if f.Detail == "" {
+				tail := dl.lastLines()
+				if len(tail) > 3000 {
+					tail = tail[len(tail)-3000:]
+				}
+				f.Detail = "tail of the library's debug log: " + tail
+			}
 			res.Fail(f)
 		}
 		if len(fails) > 0 {
@@ -643,18 +659,28 @@ func (sc c13Scenario) run(r Rng) (fails []Failure, reads *c13Reads) {
 			time.Sleep(2 * time.Millisecond)
 			sendSplit(simFrame{Port: sc.port + 1, Kind: 'C', From: "N0THIRD", To: sc.mycall, Data: []byte("*** CONNECTED To Station " + sc.mycall + "\r")}.encode())
 			time.Sleep(2 * time.Millisecond)
-			sendSplit(simFrame{Port: sc.port, Kind: 'C', From: sc.peer, To: sc.mycall, Data: []byte("*** CONNECTED To Station " + sc.mycall + "\r")}.encode())
-			select {
-			case a := <-ch:
-				if a.err != nil {
-					fail("accept", "Accept: %v", a.err)
-					return
+			// the notification is repeated when it is not taken up: on a loaded machine the Accept
+			// goroutine may not be waiting yet (the library then refuses the connection, by design),
+			// or the non-blocking Enqueue may have dropped the frame (known finding)
+			var a acc
+			accepted := false
+			for attempt := 0; attempt < 6 && !accepted; attempt++ {
+				sendSplit(simFrame{Port: sc.port, Kind: 'C', From: sc.peer, To: sc.mycall, Data: []byte("*** CONNECTED To Station " + sc.mycall + "\r")}.encode())
+				select {
+				case a = <-ch:
+					accepted = true
+				case <-time.After(500 * time.Millisecond):
 				}
-				conn = a.c
-			case <-time.After(3 * time.Second):
-				fail("accept", "Accept did not return a connection for the TNC's connect notification")
+			}
+			if !accepted {
+				fail("accept", "Accept did not return a connection for the TNC's (six times repeated) connect notification")
 				return
 			}
+			if a.err != nil {
+				fail("accept", "Accept: %v", a.err)
+				return
+			}
+			conn = a.c
 			if got := conn.RemoteAddr().String(); got != sc.peer {
 				fail("accept", "accepted connection's remote address %q, expected %q", got, sc.peer)
 			}
@@ -953,7 +979,9 @@ func (sc c13Scenario) run(r Rng) (fails []Failure, reads *c13Reads) {
 			}
 		}
 		port.Close()
-		time.Sleep(time.Millisecond)
+		for w := 0; w < 1000 && len(sim.frames('x')) == 0; w++ { // the simulator reads the frame asynchronously
+			time.Sleep(time.Millisecond)
+		}
 		if x := sim.frames('x'); len(x) != 1 || x[0].Port != sc.port || x[0].From != sc.mycall {
 			fail("close", "TNC saw unregister frames %+v", x)
 		}
